@@ -216,6 +216,13 @@ def const_direct(run: Run, n_cases: int):
                 except Exception as e:  # noqa
                     obs, err = None, "other:" + type(e).__name__
             m = dict(case="const-direct", name=name, kind=kind, d=d, rows=[[t, [None if isnan(v) else v for v in vals]] for t, vals in rows])
+            if obs is not None and any(math.isinf(v) for v in obs):
+                # no observed value is infinite, so no configured constant can be: reported with the history (an infinite number has no
+                # exact rational encoding for the comparison inside Coq)
+                run.fail(f"constant:{kind}:infinite-prediction", f"'{kind}' returns an infinite value for a feature "
+                         "(a feature never observed must give NaN, any other the configured observed value)", m,
+                         expected="NaN or an observed value", observed=[repr(v) for v in obs])
+                continue
             tol = Fraction(1, 10 ** 12) if kind == "mean" else 0
             observed = cres("Empty") if err in ("IndexError", "ValueError") and not rows else (
                 cres("Shape") if err else cres(None, coq_list([cvalue(v) for v in obs])))
@@ -328,6 +335,10 @@ def const_api(run: Run, n_datasets: int):
                              dict(m, ages=ages[i]), expected=[len(ages[i]), d], observed=list(arr.shape))
                     continue
                 obs = [[float(x) for x in row] for row in arr]
+                if any(math.isinf(v) for row in obs for v in row):
+                    run.fail(f"constant:{kind}:infinite-prediction", f"estimate() of the constant model ('{kind}') returns an infinite value",
+                             dict(m, ages=ages[i]), expected="NaN or an observed value", observed=[[repr(v) for v in row] for row in obs])
+                    continue
                 tol = Fraction(1, 10 ** 6) if kind == "mean" else 0
                 payload = coq_list([coq_list([cvalue(v) for v in row]) for row in obs])
                 cases.append(f"({KINDS[kind]}, {d}%nat, {ctable(kept)}, {coq_list([q(a) for a in ages[i]])}, {cres(None, payload)}, {q(tol)})")
